@@ -1,0 +1,37 @@
+//go:build verif
+
+package l1infotreesync
+
+import (
+	"context"
+
+	"github.com/agglayer/aggkit/sync"
+)
+
+// Verification hooks (build tag verif): an L1InfoTreeSync facade around the real processor, without
+// downloader/driver, plus pass-throughs to the processor's write path. No logic lives here.
+
+// NewVerifL1InfoTreeSync returns an L1InfoTreeSync whose only component is the real processor on dbPath.
+func NewVerifL1InfoTreeSync(dbPath string) (*L1InfoTreeSync, error) {
+	p, err := newProcessor(dbPath)
+	if err != nil {
+		return nil, err
+	}
+	return &L1InfoTreeSync{processor: p}, nil
+}
+
+// VerifProcessBlock is processor.ProcessBlock.
+func (s *L1InfoTreeSync) VerifProcessBlock(ctx context.Context, b sync.Block) error {
+	return s.processor.ProcessBlock(ctx, b)
+}
+
+// VerifReorg is processor.Reorg.
+func (s *L1InfoTreeSync) VerifReorg(ctx context.Context, firstReorgedBlock uint64) error {
+	return s.processor.Reorg(ctx, firstReorgedBlock)
+}
+
+// VerifClose closes the processor's database handle (node stop).
+func (s *L1InfoTreeSync) VerifClose() error { return s.processor.db.Close() }
+
+// VerifIsHalted reports the processor's halted flag.
+func (s *L1InfoTreeSync) VerifIsHalted() bool { return s.processor.isHalted() }
